@@ -10,7 +10,7 @@ recorded from the real implementation.
 
 Reading of the statement.
 * An activation `activate s` of connection `c` is *possibly in force* from its request marker until the
-  positive reply to a request of `c` that ends it, and *firmly in force* from its `active` reply until the
+  reply (`replyEnds`) to a request of `c` that ends it, and *firmly in force* from its `active` reply until the
   request marker of a request of `c` that ends it.  `deactivate d` ends the activations it matches
   (`cancels`: the same scope, or a parameter of the module `d`); `*IDN?` and disconnect end all.
 * `Silent`: an update for `m:p` is delivered to `c` only while an activation covering `m:p` is possibly in force.
@@ -72,6 +72,14 @@ def ends : Req → Scope → Bool
   | .disconnect, _ => true
   | .activate _, _ => false
 
+/-- does a reply to request `r` mark the end of what `r` ends: a positive reply does; for `*IDN?` and a disconnect
+any outcome does (the statement says "after an identification request, or a disconnect" — also when the
+request itself is answered with an error, e.g. because switching remote logging off failed) -/
+def replyEnds : Req → Bool → Bool
+  | .ident, _ => true
+  | .disconnect, _ => true
+  | _, ok => ok
+
 def coveredBy (l : List Scope) (m : Mod) (p : Par) : Bool := l.any (fun s => covers s m p)
 
 /-- the exported parameters a scope consists of -/
@@ -82,7 +90,7 @@ def scopeItems (cfg : Cfg) (s : Scope) : List (Mod × Par) :=
 
 def liveNext (live : Conn → List Scope) : Obs → Conn → List Scope
   | .reqStart c (.activate s) => set live c (s :: live c)
-  | .reply c r true => set live c ((live c).filter (fun a => !ends r a))
+  | .reply c r ok => if replyEnds r ok then set live c ((live c).filter (fun a => !ends r a)) else live
   | _ => live
 
 def silentOk (live : Conn → List Scope) : Obs → Bool
